@@ -82,7 +82,7 @@ def _deliver(ex, args, line):
 
 c11_farm.hand_process.on_call = staticmethod(_deliver)
 hand_data_received = framing_contract('dawgie/pl/farm.py', 'Hand.dataReceived', HAND, BUF, LEN, BLEN, DELIV, c11_farm.hand_process.modifies,
-                                      'while length <= len(self.__buf)')
+                                      'while length <= len(self.__buf)', props=('C14', 'C03'))
 
 
 def _peer(c):
